@@ -1,6 +1,6 @@
 """Witness programs (DESIGN §3.8): small mains against the real crate that show a known defect.  A witness is
 attached to a violation only if it fails (non-zero exit) on the tree being checked."""
-import json, os, shutil, subprocess, tempfile
+import json, os, re, shutil, subprocess, tempfile
 
 ROOT = os.path.dirname(os.path.dirname(os.path.abspath(__file__)))
 
@@ -33,3 +33,104 @@ def try_witness(prop, v, repo):
             if r and r["exit"] not in (0, None):
                 return dict(witness_program="witness/" + e["file"], observed="exit %s" % r["exit"], output=r["output"])
     return None
+
+
+MIN_MANIFEST = """[package]
+name = "gdsl"
+version = "0.0.0"
+edition = "2021"
+[workspace]
+[dependencies]
+ahash = "0.8.6"
+serde = "1.0.190"
+thiserror = "1.0.50"
+"""
+
+_ORACLE_CACHE = {}
+
+
+def oracle_programs(prop):
+    """property-level test oracles: the demonstration programs that came with the seeded changes of this property
+    (each checks the property on enumerated / random small graphs against an independent computation and passes on
+    the unchanged library) plus the stored defect witnesses"""
+    import glob
+    res = []
+    for d in sorted(glob.glob(os.path.join(ROOT, "seeded", "*"))):
+        mp = os.path.join(d, "meta.json")
+        if not os.path.isdir(os.path.join(d, "demo")) or not os.path.exists(mp):
+            continue
+        try:
+            m = json.load(open(mp))
+        except Exception:
+            continue
+        p = str(m.get("property", "")).split()[0].strip(",") if m.get("property") else ""
+        if p == prop and m.get("confirmation", {}).get("confirmed"):
+            res.append(("seeded/%s/demo" % os.path.basename(d), os.path.join(d, "demo")))
+    excl = set()
+    try:
+        excl = set(json.load(open(os.path.join(ROOT, "witness", "oracle_validation.json"))).get("excluded", []))
+    except Exception:
+        pass
+    return [r for r in res if r[0] not in excl]
+
+
+def run_oracles(prop, repo, timeout=900, jobs=4):
+    """Build the library sources of the tree under check (repo/src) as a crate of their own in a scratch directory
+    (outside /repo and /verif, removed afterwards) and run the property's oracle programs against it.  Returns the
+    first failing program (name, exit code, output tail) or None.  Only used to confirm a refutation that the verifier
+    could not attribute (proof annotations lost): a failing input shown on the real code."""
+    key = (prop, os.path.realpath(repo))
+    if key in _ORACLE_CACHE:
+        return _ORACLE_CACHE[key]
+    import concurrent.futures as cff
+    progs = oracle_programs(prop)
+    res = None
+    if progs and os.path.isdir(os.path.join(repo, "src")):
+        d = tempfile.mkdtemp(prefix="vxora_")
+        try:
+            lib = os.path.join(d, "gdsl")
+            os.makedirs(lib)
+            shutil.copytree(os.path.join(repo, "src"), os.path.join(lib, "src"))
+            open(os.path.join(lib, "Cargo.toml"), "w").write(MIN_MANIFEST)
+            env = dict(os.environ, CARGO_NET_OFFLINE="true", CARGO_TARGET_DIR=os.path.join(d, "target"), RUSTFLAGS="-Awarnings")
+
+            def prep(i, item):
+                name, src = item
+                pd = os.path.join(d, "o%d" % i)
+                shutil.copytree(src, pd, ignore=shutil.ignore_patterns("target", "Cargo.lock"))
+                for root, _, files in os.walk(pd):
+                    for f in files:
+                        if f == "Cargo.toml":
+                            p = os.path.join(root, f)
+                            s = open(p).read().replace("REPO_PATH_PLACEHOLDER", lib)
+                            # unique package (= binary) names: the programs share one target directory
+                            s = re.sub(r'(?m)^name\s*=\s*"[^"]*"', 'name = "oracle_%d"' % i, s, count=1)
+                            if "[workspace]" not in s:
+                                s += "\n[workspace]\n"
+                            open(p, "w").write(s)
+                return name, pd
+
+            prepared = [prep(i, it) for i, it in enumerate(progs)]
+            # build the library once, then the programs
+            first = prepared[0]
+            subprocess.run(["cargo", "build", "--offline", "-q"], cwd=first[1], env=env, stdout=subprocess.PIPE, stderr=subprocess.STDOUT, text=True, timeout=timeout)
+
+            def run(item):
+                name, pd = item
+                try:
+                    p = subprocess.run(["cargo", "run", "--offline", "-q"], cwd=pd, env=env, stdout=subprocess.PIPE, stderr=subprocess.STDOUT, text=True, timeout=timeout)
+                    return name, p.returncode, p.stdout[-1500:]
+                except Exception as e:
+                    return name, None, "could not run: %s" % e
+            with cff.ThreadPoolExecutor(jobs) as ex:
+                outs = list(ex.map(run, prepared))
+            bad = [o for o in outs if o[1] not in (0, None)]
+            # a compile error of the oracle itself (API changed) is no evidence either way
+            bad = [o for o in bad if "error[E" not in o[2] and "could not compile" not in o[2]]
+            if bad:
+                name, rc, out = bad[0]
+                res = dict(witness_program=name, observed="exit %s" % rc, output=out, programs_run=len(outs), programs_failed=[o[0] for o in bad])
+        finally:
+            shutil.rmtree(d, ignore_errors=True)
+    _ORACLE_CACHE[key] = res
+    return res
